@@ -19,7 +19,7 @@ ORACLE_FIELDS = ["gdown4", "gup4", "gdet", "gammaup3", "gammadet", "st_Gamma_udd
                  "dtKtrace", "dtphi_bssnok", "dtgammaup3", "dtgammadown3_bssnok", "dtAdown3_bssnok", "dts_Gamma_bssnok", "s_Gamma_bssnok",
                  "covd_s", "covd_u", "covd_d", "covd_uu", "covd_dd", "covd_ud", "covd_du", "div_u", "div_d", "div_uu", "div_ud", "div_du",
                  "div_dd", "curl_dd", "stcovd_u", "stcovd_d", "lie_s", "lie_u", "lie_d", "lie_uu", "lie_dd", "lie_ud", "lie_du", "lie_stu",
-                 "lie_std", "s_Gamma_udd3_bssnok", "s_Ricci_down3_bssnok",
+                 "lie_std", "s_Gamma_udd3_bssnok", "s_Ricci_down3_bssnok", "s_RicciS_bssnok",
                  "dalpha_over_alpha", "nup4", "theta", "minusA", "shear2", "covd_n", "zero9", "zero16", "zero", "zero3"]
 
 
